@@ -234,6 +234,9 @@ type cfg struct {
 	Sequenced bool
 	// SiblingJoin: a second join over the same bases is created with the first and closed while the histories run
 	SiblingJoin bool
+	// CancelCallCtx: the context passed to the join constructor ends right after the constructor returned (a caller
+	// that bounds the call, not the join): the join result stays open and keeps following its bases
+	CancelCallCtx bool
 	DstHist     []ev
 	MidHist     []ev // double join only: changes of the services in the middle
 	Cycles      int
@@ -358,11 +361,17 @@ func (in *inst) run() {
 				sibling = &h2
 			}
 		}
-		h, err := in.k.start(ctx, src.Pub, midPub, dst.Pub)
+		callCtx, endCall := context.WithCancel(ctx)
+		h, err := in.k.start(callCtx, src.Pub, midPub, dst.Pub)
 		if err != nil {
+			endCall()
 			in.joinErr = err
 			return
 		}
+		if c.CancelCallCtx {
+			endCall()
+		}
+		_ = endCall
 		// readiness observer
 		cy := cycle
 		go func() {
@@ -671,6 +680,7 @@ func Property() runner.Property {
 					scenario(cfg{Kind: ki, Name: "destinations-move-in-and-out", SrcInit: []ev{{C, "ns", "w1", sel1}}, DstHist: moves(k, C, U, D), Cycles: 1, Mode: "S2", Bound: d}),
 					scenario(cfg{Kind: ki, Name: "sole-source-loses-its-selector", SrcInit: []ev{{C, "ns", "w1", sel1}}, SrcHist: []ev{{U, "ns", "w1", ""}}, DstHist: dst, Cycles: 1, Mode: "S2", Bound: d}),
 					scenario(cfg{Kind: ki, Name: "same-rule-in-two-namespaces", SrcInit: []ev{{C, "ns", "w1", sel1}}, SrcHist: []ev{{C, "other", "w2", sel1}}, DstHist: dst2, Cycles: 1, Mode: "S2", Bound: d}),
+					scenario(cfg{Kind: ki, Name: "call-context-ends-after-construction", SrcInit: []ev{{C, "ns", "w1", sel1}}, SrcHist: []ev{{U, "ns", "w1", sel2}}, DstHist: dst, CancelCallCtx: true, Cycles: 1, Mode: "S2", Bound: d - 1}),
 					// a source appears that selects nothing yet and disappears again; then a destination object appears that it
 					// would have selected (the join's filter must be back to the first one)
 					scenario(cfg{Kind: ki, Name: "source-appears-and-disappears,then-its-target-appears", SrcInit: []ev{{C, "ns", "w1", sel1}}, SrcHist: []ev{{C, "ns", "w2", sel3}, {D, "ns", "w2", sel3}}, DstHist: dst3, Sequenced: true, Cycles: 1, Mode: "S2", Bound: d - 1}),
